@@ -12,9 +12,9 @@ Definition DReach (c : dcfg) (s : dst) : Prop := reachable dst (dstep c) dinit s
 Lemma apc_eqb_eq : forall a b, apc_eqb a b = true -> a = b.
 Proof. destruct a, b; simpl; congruence. Qed.
 Lemma cpc_eqb_eq : forall a b, cpc_eqb a b = true -> a = b.
-Proof. destruct a, b; simpl; try congruence. intro H. apply Z.eqb_eq in H. now subst. Qed.
+Proof. destruct a, b; simpl; try congruence; intro H; apply Z.eqb_eq in H; now subst. Qed.
 Lemma tpc_eqb_eq : forall a b, tpc_eqb a b = true -> a = b.
-Proof. destruct a, b; simpl; congruence. Qed.
+Proof. destruct a, b; simpl; try congruence. intro H. apply Z.eqb_eq in H. now subst. Qed.
 
 Lemma dst_eqb_eq : forall a b, dst_eqb a b = true -> a = b.
 Proof.
@@ -112,8 +112,8 @@ Proof. reflexivity. Qed.
 Example af_dep_reach_example :
   exists s, DReach {| has_cond := true; holds := false |} s /\ ddone {| has_cond := true; holds := false |} s = true /\ wn s = -1.
 Proof.
-  exists (run dst (dstep {| has_cond := true; holds := false |}) dinit [1;1;0;2;2;0;1]%nat). split.
-  - now exists [1;1;0;2;2;0;1]%nat.
+  exists (run dst (dstep {| has_cond := true; holds := false |}) dinit [1;1;0;2;2;2;0;1;1]%nat). split.
+  - now exists [1;1;0;2;2;2;0;1;1]%nat.
   - vm_compute. split; reflexivity.
 Qed.
 
@@ -1112,9 +1112,9 @@ Qed.
 
 Example af_vx_example :
   let cs := [ {| has_cond := true; holds := false |}; {| has_cond := false; holds := false |} ] in
-  let s := run xst (xstep cs) (xinit 2) [1;1;0;2;2;0;1; 4;4; 0;0; 0]%nat in
+  let s := run xst (xstep cs) (xinit 2) [1;1;0;2;2;2;0;1;1; 4;4;4; 0;0; 0]%nat in
   XReach cs s /\ vinvoked (xv s) = 1%nat /\ vended (xv s) = true.
-Proof. cbn zeta. split; [now exists [1;1;0;2;2;0;1; 4;4; 0;0; 0]%nat | vm_compute; split; reflexivity]. Qed.
+Proof. cbn zeta. split; [now exists [1;1;0;2;2;2;0;1;1; 4;4;4; 0;0; 0]%nat | vm_compute; split; reflexivity]. Qed.
 
 (* the closure counters fire finish / flush exactly under the guards ENG (EFinish0) and TERM (TFlush) use *)
 Theorem af_clo_refines : forall l e, let s := crun cinit l in let s' := crun cinit (l ++ [e]) in
